@@ -368,6 +368,9 @@ class ProcessRunner(Runner, ABC):
     def wait(self, *, timeout_seconds: Optional[float]) -> Iterator[tuple[Task, ResultMeta | BaseException]]:
         self._consume_log_queue()
         done, _ = self.executor.wait(list(self.future_to_task.keys()), timeout_seconds=timeout_seconds)
+        # Tasks log before returning their result, so also handle the
+        # records of the tasks that have just completed.
+        self._consume_log_queue()
         for future in done:
             task = self.future_to_task[future]
             if future.cancelled:
